@@ -638,6 +638,7 @@ mutual
           rw [if_neg (by simp [hig'.2]), if_neg (by simp)]
           have hty : ∀ sd, ty = .struct sd → sd.descOk = true ∧ SD.OK sd = true := by
             intro sd e; subst e; exact fldOK_struct all i nm tag req false sk sd hf
+          have hwv : WFv ty v := wf_of_present (.mk nm tag req false sk ty) v hwv hz
           rw [V_canon tag prev ty rest hlt hty v hwv hs]
           rw [normFV_one_present _ v hig hz]
           simp only [Option.bind_some, Fld.ty]
